@@ -5,6 +5,7 @@ import GV.Lib.EngTrace
          every event is admitted).
   spec : from the prescribed conversation: which sent messages advanced the local state (T),
          what may be on the wire (W: at least T, at most everything enqueued, in queue order),
+         no empty segment (Z: a real peer's muxer treats a zero-length segment as an error),
          the first error; for `pair`: both sides see the whole conversation and no error.
 -/
 namespace GV.Drv.C12
@@ -13,7 +14,7 @@ open GV.Line GV.SM GV.EngTrace
 def specEng (c : Conv) (locals : List Sym) : String :=
   if c.err = "-" then
     "||".intercalate ((List.range (locals.length + 1 - c.sent.length)).map (fun d =>
-      s!"H={symsStr c.handled} E=- T={symsStr c.sent} W={typesStr (locals.take (c.sent.length + d))} *"))
+      s!"H={symsStr c.handled} E=- T={symsStr c.sent} W={typesStr (locals.take (c.sent.length + d))} Z=0 *"))
   else if c.err = "send-not-allowed" then
     -- the refused message never advances the state; when it is the very first message the
     -- application sends it is the head of a batch and must not reach the wire at all
@@ -22,7 +23,7 @@ def specEng (c : Conv) (locals : List Sym) : String :=
     let ws := if c.sent.isEmpty then [([] : List Sym)]
               else (List.range (locals.length + 1)).map (fun k => locals.take k)
     "||".intercalate ((prefixes c.handled).flatMap (fun h => ws.map (fun w =>
-      s!"H={symsStr h} E=send-not-allowed T={symsStr c.sent} W={typesStr w} *")))
+      s!"H={symsStr h} E=send-not-allowed T={symsStr c.sent} W={typesStr w} Z=0 *")))
   else "*"
 
 def splitConv : List String → List Sym → List Sym → Option (List Sym × List Sym)
@@ -39,23 +40,28 @@ def splitConv : List String → List Sym → List Sym → Option (List Sym × Li
 def handle (line : String) : Out :=
   match line.splitOn "\t" with
   | [op, impl] =>
-    match groups op, groups impl with
-    | [["eng", proto, role, _], steps], [_, evs] =>
+    match groups op with
+    | [["eng", proto, role, _], steps] =>
       match findMachine proto role, roleNat role, parseSteps steps ⟨[], []⟩ with
       | some m, some r, some sc =>
-        let model := match replay m r evs with
-          | none => impl
-          | some rej => rej
+        -- an output that is not a summary + trace (e.g. `STUCK …`) is judged by the spec column
+        let model := match groups impl with
+          | [_, evs] => (match replay m r evs with
+            | none => impl
+            | some rej => rej)
+          | _ => "bad-trace"
         let c := conv m r (sc.locals.length + sc.peers.length + 1) m.init sc.locals sc.peers {}
         { model := model, spec := if (firstBad sc.peers).isSome then "*" else specEng c sc.locals }
       | _, _, _ => badOp
-    | [["pair", proto, _], walk], [_, evA, evB] =>
+    | [["pair", proto, _], walk] =>
       match findMachine proto "client", findMachine proto "server", splitConv walk [] [] with
       | some mc, some ms, some (cl, sv) =>
-        let model := match replay mc 1 evA, replay ms 2 evB with
-          | none, none => impl
-          | some rej, _ => "A:" ++ rej
-          | _, some rej => "B:" ++ rej
+        let model := match groups impl with
+          | [_, evA, evB] => (match replay mc 1 evA, replay ms 2 evB with
+            | none, none => impl
+            | some rej, _ => "A:" ++ rej
+            | _, some rej => "B:" ++ rej)
+          | _ => "bad-trace"
         -- the conversation must be a path of the machine for the demand to apply
         let c := conv mc 1 (cl.length + sv.length + 1) mc.init cl (sv.map .msg) {}
         let spec := if c.err = "-" && c.sent.length = cl.length && c.handled.length = sv.length then
@@ -63,7 +69,7 @@ def handle (line : String) : Out :=
           else "*"
         { model := model, spec := spec }
       | _, _, _ => badOp
-    | _, _ => { model := "bad-trace", spec := "*" }
+    | _ => badOp
   | _ => badOp
 
 end GV.Drv.C12
